@@ -38,4 +38,6 @@ broadcast use {vstd::std_specs::hash::group_hash_axioms, vstd::string::group_str
 //@verify objects.member
 //@verify objects.resolve_all
 //@verify objects.resolve
+//@item interpreter/src/lib.rs :: struct Program [pub, pubfields]
+//@verify lib.execute
 //@include prelude/tail_std.rs
